@@ -288,3 +288,123 @@ Qed.
 (* building the tree of a written expression and printing it gives an expression with the same tree *)
 Corollary print_then_parse_again e : ast_value (unparse (ast_value e)) = ast_value e.
 Proof. apply roundtrip, ast_value_normal. Qed.
+
+(* ---- the language of a typed tree, and: what is printed denotes what was written ---- *)
+Inductive star_of (L : word -> Prop) : word -> Prop :=
+| so_nil : star_of L []
+| so_snoc u v : star_of L u -> L v -> star_of L (u ++ v).
+Inductive plus_of (L : word -> Prop) : word -> Prop :=
+| po_one w : L w -> plus_of L w
+| po_snoc u v : plus_of L u -> L v -> plus_of L (u ++ v).
+
+Lemma star_of_ext (L L' : word -> Prop) : (forall w, L w <-> L' w) -> forall w, star_of L w <-> star_of L' w.
+Proof. intros H w. split; induction 1; constructor; auto; apply H; assumption. Qed.
+Lemma plus_of_ext (L L' : word -> Prop) : (forall w, L w <-> L' w) -> forall w, plus_of L w <-> plus_of L' w.
+Proof.
+  intros H w. split; induction 1; try (apply po_one; apply H; assumption); apply po_snoc; auto; apply H; assumption.
+Qed.
+
+Section Den.
+  Variable den : trhs -> word -> Prop.
+  Fixpoint cat_den (l : list trhs) (w : word) : Prop :=
+    match l with
+    | [] => w = []
+    | o :: t => exists u v, w = u ++ v /\ den o u /\ cat_den t v
+    end.
+  Fixpoint alt_den (l : list trhs) (w : word) : Prop :=
+    match l with
+    | [] => False
+    | o :: t => den o w \/ alt_den t w
+    end.
+
+  Lemma cat_den_app l1 : forall l2 w,
+    cat_den (l1 ++ l2) w <-> exists u v, w = u ++ v /\ cat_den l1 u /\ cat_den l2 v.
+  Proof.
+    induction l1 as [|o t IH]; intros l2 w; simpl.
+    - split; [intros H; exists [], w; auto | intros [u [v [-> [-> H]]]]; exact H].
+    - split.
+      + intros [u [v [-> [Ho Hr]]]]. apply IH in Hr as [u1 [v1 [-> [H1 H2]]]].
+        exists (u ++ u1), v1. rewrite app_assoc. repeat split; [|exact H2]. exists u, u1. auto.
+      + intros [u [v [-> [[u0 [u1 [-> [Ho H1]]]] H2]]]]. exists u0, (u1 ++ v). rewrite app_assoc. repeat split; [exact Ho|].
+        apply IH. exists u1, v. auto.
+  Qed.
+
+  Lemma alt_den_app l1 : forall l2 w, alt_den (l1 ++ l2) w <-> alt_den l1 w \/ alt_den l2 w.
+  Proof. induction l1 as [|o t IH]; intros l2 w; simpl; [tauto|]. rewrite IH. tauto. Qed.
+End Den.
+
+Section Lang.
+  Variable rules : list rule.
+
+  Fixpoint tden (v : trhs) : word -> Prop :=
+    match v with
+    | TTerm a _ => fun w => w = [a]
+    | TNT A => fun w => em rules (ENT A) w
+    | TConcat ops => cat_den tden ops
+    | TAlt ops => alt_den tden ops
+    | TOpt x => fun w => w = [] \/ tden x w
+    | TStar x => star_of (tden x)
+    | TPlus x => plus_of (tden x)
+    | TEmpty => fun w => w = []
+    end.
+
+  Lemma cat_ops_den v w : cat_den tden (cat_ops v) w <-> tden v w.
+  Proof.
+    destruct v; simpl; try tauto;
+      (split; [intros [u [v' [-> [H ->]]]]; rewrite app_nil_r; exact H | intros H; exists w, []; rewrite app_nil_r; auto]).
+  Qed.
+  Lemma alt_ops_den v w : alt_den tden (alt_ops v) w <-> tden v w.
+  Proof. destruct v; simpl; tauto. Qed.
+
+  Lemma em_star_iff x w : em rules (EStar x) w <-> star_of (em rules x) w.
+  Proof.
+    split.
+    - intros H. remember (EStar x) as e eqn:E. induction H; try discriminate E.
+      + constructor.
+      + injection E as ->. apply so_snoc; [apply IHem1; reflexivity | exact H0].
+    - induction 1; [apply em_star_nil | apply em_star_snoc; assumption].
+  Qed.
+  Lemma em_plus_iff x w : em rules (EPlus x) w <-> plus_of (em rules x) w.
+  Proof.
+    split.
+    - intros H. remember (EPlus x) as e eqn:E. induction H; try discriminate E.
+      + injection E as ->. apply po_one; exact H.
+      + injection E as ->. apply po_snoc; [apply IHem1; reflexivity | exact H0].
+    - induction 1; [apply em_plus_one | apply em_plus_snoc]; assumption.
+  Qed.
+
+  (* the typed tree denotes the language of the expression it was built from *)
+  Theorem typed_tree_same_language e : forall w, em rules e w <-> tden (ast_value e) w.
+  Proof.
+    induction e as [a lit|A|x IHx y IHy|x IHx y IHy|x IHx|x IHx|x IHx|x IHx|x IHx]; intros w; simpl.
+    - split; [intros H; inversion H; reflexivity | intros ->; constructor].
+    - tauto.
+    - rewrite cat_den_app. split.
+      + intros H. inversion H; subst.
+        match goal with
+        | Hu : em rules x ?u, Hv : em rules y ?v |- _ =>
+          exists u, v; repeat split; [apply cat_ops_den, IHx; exact Hu | apply cat_ops_den, IHy; exact Hv]
+        end.
+      + intros [u [v [-> [Hu Hv]]]]. apply em_cat; [apply IHx, cat_ops_den; exact Hu | apply IHy, cat_ops_den; exact Hv].
+    - rewrite alt_den_app, !alt_ops_den, <- IHx, <- IHy. split.
+      + intros H. inversion H; subst; [left | right]; assumption.
+      + intros [H|H]; [apply em_altl | apply em_altr]; exact H.
+    - rewrite alt_den_app, alt_ops_den, <- IHx. simpl. split.
+      + intros H. inversion H; subst; [left; assumption | right; left; reflexivity].
+      + intros [H|[->|[]]]; [apply em_alte; exact H | apply em_alte_eps].
+    - rewrite <- IHx. split; [intros H; inversion H; assumption | apply em_group].
+    - rewrite <- IHx. split.
+      + intros H. inversion H; subst; [right; assumption | left; reflexivity].
+      + intros [->|H]; [apply em_opt_eps | apply em_opt; exact H].
+    - rewrite em_star_iff. apply star_of_ext. exact IHx.
+    - rewrite em_plus_iff. apply plus_of_ext. exact IHx.
+  Qed.
+
+  (* what is printed from the typed tree of e denotes exactly what e denotes: the grammar derived from the typed tree's
+     structure generates the language of the grammar derived directly (C01 ties each to its derivations) *)
+  Theorem printed_same_language e w : em rules (unparse (ast_value e)) w <-> em rules e w.
+  Proof.
+    rewrite (typed_tree_same_language (unparse (ast_value e))), print_then_parse_again.
+    symmetry. apply typed_tree_same_language.
+  Qed.
+End Lang.
